@@ -52,6 +52,27 @@ class Bounded(object):
                        '%s: %s' % (type(e).__name__, str(e)[:300]))
             return False, e
 
+    def case_guard(self, prop, witness, fn):
+        """Run one driver case; if the LIBRARY raises in a call the driver makes outside a `guarded` block (a call that
+        works on the tree the driver was written against) that is a failure of `<prop>.driver.library-call-raised`;
+        an exception from the driver's own code is re-raised (a checker error)."""
+        import os, traceback
+        n0 = len(self.failures)
+        try:
+            return fn()
+        except Exception as e:
+            repo = os.path.realpath(os.environ.get('VERIF_REPO', '/repo'))
+            frames = traceback.extract_tb(e.__traceback__)
+            if frames and os.path.realpath(frames[-1].filename).startswith(repo + os.sep):
+                self.check('%s.driver.library-call-raised' % prop, False, witness,
+                           ''.join(traceback.format_exception(type(e), e, e.__traceback__))[-900:])
+                return None
+            if len(self.failures) > n0:
+                # the case had already failed a contract (e.g. the calculator audit): the driver's later steps
+                # build on what the library reported and cannot be trusted to run; the recorded failures stand
+                return None
+            raise
+
     def as_dict(self):
         return {'label': 'bounded (runtime contracts on the real code; not proof)',
                 'bound': self.bound, 'rule': self.rule,
